@@ -132,6 +132,12 @@ class DiagLinearOperator(TriangularLinearOperator):
         diag: Union[Float[torch.Tensor, "... N"], Float[torch.Tensor, "... 1"], Float[torch.Tensor, ""]],
     ) -> Float[LinearOperator, "*batch N N"]:
         shape = torch.broadcast_shapes(self._diag.shape, diag.shape)
+        if shape[-1] != self._diag.shape[-1]:
+            raise RuntimeError(
+                "add_diagonal for LinearOperator of size {} received invalid diagonal of size {}.".format(
+                    self.shape, diag.shape
+                )
+            )
         return DiagLinearOperator(self._diag.expand(shape) + diag.expand(shape))
 
     @cached
